@@ -67,7 +67,73 @@ func contend(spec contendSpec) {
 	mg.Deps(genericDep[int], genericDep[string])
 	json.NewEncoder(os.Stdout).Encode(map[string]interface{}{"keys": len(contendCount), "not_once": bad,
 		"generic_runs": []int32{atomic.LoadInt32(&genericRuns[0]), atomic.LoadInt32(&genericRuns[1])},
-		"invalid_member": invalidProbe(), "name_prefix": namesProbe()})
+		"invalid_member": invalidProbe(), "name_prefix": namesProbe(), "custom_fn": customProbe(), "verbose_late": verboseProbe()})
+}
+
+// ---- user-implemented mg.Fn values: the registry must keep (Name, ID) PAIRS apart; any key that
+// glues the two strings together conflates ("a"+sep+"b", "c") with ("a", "b"+sep+"c") (C01).
+type customFn struct {
+	name, id string
+	n        *int32
+}
+
+func (c customFn) Name() string                  { return c.name }
+func (c customFn) ID() string                    { return c.id }
+func (c customFn) Run(ctx context.Context) error { atomic.AddInt32(c.n, 1); return nil }
+
+func customProbe() map[string]interface{} {
+	seps := []string{"", ".", ":", "/", "#", "|", " ", "-", "_", "@", "\x00", "(", "[", ",", ";", "\n", "=", "1", "0"}
+	var fns []customFn
+	for i, sep := range seps {
+		base := fmt.Sprintf("probe.job%d", i)
+		fns = append(fns, customFn{base + sep + "index", "10", new(int32)}, customFn{base, "index" + sep + "10", new(int32)},
+			customFn{base + sep + "index1", "0", new(int32)}, customFn{base + sep + "index", "1" + "0" + "", new(int32)})
+	}
+	// the 4th of each group is the same (Name, ID) pair as the 1st: one dependency, requested twice
+	var a, b, c, d []interface{}
+	for i, f := range fns {
+		switch i % 4 {
+		case 0:
+			a = append(a, f)
+		case 1:
+			b = append(b, f)
+		case 2:
+			c = append(c, f)
+		default:
+			d = append(d, f)
+		}
+	}
+	mg.Deps(a...)
+	mg.CtxDeps(context.Background(), b...)
+	mg.SerialDeps(c...)
+	mg.SerialCtxDeps(context.Background(), d...)
+	bad := []string{}
+	for i := 0; i < len(fns); i += 4 {
+		same := atomic.LoadInt32(fns[i].n) + atomic.LoadInt32(fns[i+3].n)
+		if same != 1 || atomic.LoadInt32(fns[i+1].n) != 1 || atomic.LoadInt32(fns[i+2].n) != 1 {
+			bad = append(bad, fmt.Sprintf("sep %q: (%q,%q)+(same pair again) ran %d times, (%q,%q) %d, (%q,%q) %d", seps[i/4],
+				fns[i].name, fns[i].id, same, fns[i+1].name, fns[i+1].id, atomic.LoadInt32(fns[i+1].n), fns[i+2].name, fns[i+2].id, atomic.LoadInt32(fns[i+2].n)))
+		}
+	}
+	return map[string]interface{}{"groups": len(seps), "bad": bad}
+}
+
+// ---- verbosity decided late: a compiled magefile given -v exports MAGEFILE_VERBOSE=1 from main(),
+// i.e. AFTER package initialisation; a dependency run from an init() must not freeze "not verbose"
+// for the dependencies of the targets (C01, the "Running dependency:" clause).  The lines go to
+// stderr (mg's logger); the caller counts them between the markers.
+func VpEarly() {}
+func VpLate()  {}
+
+func verboseProbe() string {
+	os.Unsetenv("MAGEFILE_VERBOSE")
+	mg.Deps(VpEarly) // what an init() of a magefile may do
+	os.Setenv("MAGEFILE_VERBOSE", "1") // what the generated main does for -v
+	fmt.Fprintln(os.Stderr, "VPROBE-BEGIN")
+	mg.Deps(VpLate, VpEarly)
+	fmt.Fprintln(os.Stderr, "VPROBE-END")
+	os.Setenv("MAGEFILE_VERBOSE", "0")
+	return "see stderr"
 }
 
 // ---- a call naming a valid, slow dependency AND a value that is not a dependency at all:
